@@ -8,8 +8,13 @@ Extra recipe nodes (on top of build.py's):
   ('abiget', K, TY) / ('abiset', K, TY, e)  a subroutine-local ABI variable (abi.Uint64 / abi.DynamicBytes);
                                    lives in the frame when frame pointers are on
   ('multi', 'box_get', (), (name,), 2, KEY)  MaybeValue with a bytes value slot (KEY,0) and a uint64 flag (KEY,1)
+  ('aparam', i, TY)                ABI-typed parameter i of an ABIReturnSubroutine: .get()
+  ('oset', e)                      output.set(e) inside an ABIReturnSubroutine
+  ('abicall', KEY, args, OUTK)     call of an ABIReturnSubroutine: arguments are put into fresh ABI variables, the
+                                   result (if any) is stored into the ABI variable OUTK (read it with 'abiget')
 
-A subroutine definition: dict(key, kinds ('v' by value | 'r' ScratchVar by reference), ptypes (intended
+A subroutine definition: dict(key, kinds ('v' by value | 'r' ScratchVar by reference | 'a' ABI value of an
+ABIReturnSubroutine, whose result goes through the `output` keyword argument), ptypes (intended
 'u'/'b' of each argument - every call site passes that type), ret ('n'|'u'|'b'), rec (recursion group or
 None), body recipe).  Recursive subroutines take their recursion budget as argument 0 and return a base
 value when it is 0, so every generated program terminates."""
@@ -22,6 +27,8 @@ class C05Builder(Builder):
         super().__init__(pt)
         self.svars = {}
         self.abivars = {}
+        self.output = None
+        self.ntmp = 0
         self.subdefs = subdefs
         for sd in subdefs:
             self.subs[sd["key"]] = {"wrapper": self.make_wrapper(sd), "id": None, "ret": sd["ret"]}
@@ -31,13 +38,27 @@ class C05Builder(Builder):
         n = len(sd["kinds"])
         outer = self
 
-        def body(*args):
-            saved_p, saved_abi = outer.params, outer.abivars
-            outer.params, outer.abivars = list(args), {}
+        def body(*args, output=None):
+            saved = (outer.params, outer.abivars, outer.output)
+            outer.params, outer.abivars, outer.output = list(args), {}, output
             try:
                 return outer.build(sd["body"])
             finally:
-                outer.params, outer.abivars = saved_p, saved_abi
+                outer.params, outer.abivars, outer.output = saved
+
+        if sd.get("abi"):
+            names = ["a%d" % i for i in range(n)]
+            tyname = {"u": "abi.Uint64", "b": "abi.DynamicBytes"}
+            params = ", ".join("%s: %s" % (nm, tyname[t]) for nm, t in zip(names, sd["ptypes"]))
+            if sd["ret"] != "n":
+                params += (", " if params else "") + "*, output: %s" % tyname[sd["ret"]]
+                call = "body(%s, output=output)" % ", ".join(names) if names else "body(output=output)"
+            else:
+                call = "body(%s)" % ", ".join(names)
+            src = "def %s(%s) -> Expr:\n    return %s\n" % (sd["key"], params, call)
+            env = {"body": body, "abi": pt.abi, "Expr": pt.Expr}
+            exec(src, env)
+            return pt.ABIReturnSubroutine(env[sd["key"]])
 
         ann = {}
         names = ["a%d" % i for i in range(n)]
@@ -80,6 +101,22 @@ class C05Builder(Builder):
                 return self.abivar(r[1], r[2]).get()
             if k == "abiset":
                 return self.abivar(r[1], r[2]).set(self.build(r[3]))
+            if k == "aparam":
+                return self.params[r[1]].get()
+            if k == "oset":
+                return self.output.set(self.build(r[1]))
+            if k == "abicall":
+                sd = [x for x in self.subdefs if x["key"] == r[1]][0]
+                w = self.subs[r[1]]["wrapper"]
+                sets, vs = [], []
+                for t, e in zip(sd["ptypes"], r[2]):
+                    self.ntmp += 1
+                    v = self.abivar("tmp%d" % self.ntmp, t)
+                    sets.append(v.set(self.build(e)))
+                    vs.append(v)
+                if r[3] is None:
+                    return pt.Seq(*(sets + [w(*vs)]))
+                return pt.Seq(*(sets + [w(*vs).store_into(self.abivar(r[3], sd["ret"]))]))
             if k == "multi" and r[1] == "box_get":
                 mv = pt.App.box_get(self.build(r[3][0]))
                 self.multi[r[5]] = mv
@@ -108,15 +145,19 @@ def mk_subdefs(rng, version, nsubs):
                 nargs = 1
             ptypes = [rng.choice("uub") for _ in range(nargs)]
             kinds = ["v"] * nargs
+            is_abi = False
             if grp is not None:
                 ptypes[0] = "u"
+            elif version >= 6 and rng.random() < 0.2:
+                is_abi = True
+                kinds = ["a"] * nargs
             else:
                 for a in range(nargs):
                     if rng.random() < 0.15:
                         kinds[a] = "r"
             subs.append({"key": "s%d" % len(subs), "kinds": kinds, "ptypes": ptypes,
                          "ret": rng.choice(["n", "u", "u", "b"]), "rec": grp, "body": None,
-                         "nabi": 0})
+                         "nabi": 0, "abi": is_abi})
             i += 1
     return subs
 
@@ -169,6 +210,13 @@ class SubGen(Gen):
                 args.append(("svar", key, t))
             else:
                 args.append(self.expr(t, min(d - 1, 2)))
+        if sd.get("abi"):
+            self.note("abicall")
+            if sd["ret"] == "n":
+                return ("abicall", sd["key"], tuple(args), None)
+            self.nout = getattr(self, "nout", 0) + 1
+            outk = "%so%d" % (self.prefix, self.nout)
+            return ("seq", ("abicall", sd["key"], tuple(args), outk), ("abiget", outk, sd["ret"]))
         self.note("call")
         return ("call", sd["key"], tuple(args))
 
@@ -182,6 +230,8 @@ class SubGen(Gen):
                 self.note("leaf:param")
                 if me["kinds"][a] == "r":
                     return ("pload", a, want)
+                if me["kinds"][a] == "a":
+                    return ("aparam", a, want)
                 if not self.anytype_free:
                     return ("param", a)
         if self.abi and self.r.random() < 0.3:
@@ -229,6 +279,8 @@ class SubGen(Gen):
                 return ("op", "pop", (), "n", (self.call(r.choice(c), d),))
         if me is not None and x < 0.3 and not no_ctrl:
             self.note("stmt:early-return")
+            if me.get("abi") and me["ret"] != "n":
+                return ("if", self.expr("u", d - 1), ("seq", ("oset", self.expr(me["ret"], d - 1)), ("return",)))
             if me["ret"] == "n":
                 return ("if", self.expr("u", d - 1), ("return",))
             return ("if", self.expr("u", d - 1), ("return", self.expr(me["ret"], d - 1)))
@@ -244,7 +296,8 @@ class SubGen(Gen):
             if cands and r.random() < 0.5:
                 k = r.choice(cands)
             else:
-                k = "%sabi%d" % (self.prefix, len(self.abi))
+                self.nabi_keys = getattr(self, "nabi_keys", 0) + 1      # reserve the name before generating the operand
+                k = "%sabi%d" % (self.prefix, self.nabi_keys)
             e = self.expr(ty, d - 1)
             self.abi[k] = ty
             self.note("stmt:abiset")
@@ -252,6 +305,8 @@ class SubGen(Gen):
         s = super().stmt(d, in_loop, no_ctrl)
         if me is not None and isinstance(s, tuple) and s and s[0] == "return":
             # Gen's main-routine Return(uint64): adapt to the subroutine's declared type
+            if me.get("abi") and me["ret"] != "n":
+                return ("seq", ("oset", self.expr(me["ret"], 1)), ("return",))
             if me["ret"] == "n":
                 return ("return",)
             if me["ret"] == "b":
@@ -272,6 +327,8 @@ class SubGen(Gen):
         for _ in range(r.choice([0, 1, 2, 3])):
             stmts.append(self.stmt(depth, False))
         tail = () if me["ret"] == "n" else (self.expr(me["ret"], depth),)
+        if me.get("abi") and tail:
+            tail = (("oset", tail[0]),)
         # every local variable is initialised on entry (bytes variables must hold bytes), so no path loads it unset
         declared = set(s[2][0][1] for s in stmts if isinstance(s, tuple) and len(s) > 2 and s[0] == "op" and s[1] == "store")
         init = tuple(("op", "store", (("slot", k),), "n", ((I(0) if t == "u" else B(b"")),)) for k, t in self.vars.items())
